@@ -4,7 +4,8 @@ package main
 //       the argument node with CallNode.FindArg(value), which returns the FIRST argument node holding
 //       that SSA value: when one value is passed at two positions of a call, the later position never
 //       gets an incoming edge, so a callee that only propagates its second parameter loses the flow.
-// Native run prints the tainted string three times; `argot taint` reports only the `reported` lines.
+// Native run prints the tainted string three times. At the pinned commit the first flow was missed;
+// repaired by e3a7fa7 — kept as a regression case: every `reported` line must be reported.
 
 func source() string { return "tainted" }
 func sink(s string)  { println(s) }
@@ -14,7 +15,7 @@ func first(p, q string) string  { return p }
 
 func main() {
 	x := source()
-	sink(second(x, x)) // missed (C08c)
+	sink(second(x, x)) // reported (was missed: C08c, repaired by e3a7fa7)
 	sink(first(x, x)) // reported
 	sink(second("a", x)) // reported
 }
